@@ -5,7 +5,7 @@
    and pad g pads with zero bits to the format's granule g.
    Only statements; each closed by a lemma of Proofs/FormatsP*.v. *)
 From Coq Require Import NArith List Bool.
-From CA Require Import Model.Formats Spec.Decoders Proofs.FormatsP Proofs.FormatsP2 Proofs.FormatsP3 Proofs.FormatsP4.
+From CA Require Import Model.Formats Spec.Decoders Proofs.FormatsP Proofs.FormatsP2 Proofs.FormatsP3 Proofs.FormatsP4 Proofs.FormatsP5.
 Import ListNotations.
 Open Scope N_scope.
 
@@ -79,35 +79,64 @@ Theorem C11_intelhex_unaligned_refuted :
     /\ image 8 recs 1 = Some 32 /\ firstn 8 (skipn 8 bits) = val_bits 8 2.
 Proof. exists unaligned_bits, unaligned_spans. exact intelhex_unaligned_witness. Qed.
 
-(* NOT PROVED (checked on every run by the multi-block stream of tools/props/c11.py, which evaluates this
-   predicate on the implementation's text): several separated blocks.  For aligned, in-range blocks and an
-   output that is zero outside its blocks, the memory image of the file (later records win, absent = 0)
-   equals the padded output byte for byte, and the file has no byte outside the output. *)
-Definition C11_intelhex_blocks_statement : Prop :=
-  forall unit bits spans, unit = 8 \/ unit = 16 \/ unit = 32 ->
-  (forall off sz, In (off, sz) (get_blocks spans) -> off mod unit = 0 /\ off + sz <= blen bits /\ (off + sz - 1) / unit < 65536) ->
-  (forall i, nth_error bits i = Some true ->
-     exists off sz, In (off, sz) (get_blocks spans) /\ off <= N.of_nat i < off + sz) ->
+(* ---- several blocks (BitVec::get_blocks + one record run per block) ----
+   get_blocks neither loses nor invents a bit position, for ANY span list (no sortedness or disjointness
+   assumed): a position lies in a block iff it lies in a span with an output offset. *)
+Theorem C11_get_blocks_exact : forall spans i, in_block (get_blocks spans) i <-> in_span spans i.
+Proof. exact get_blocks_exact. Qed.
+
+(* For any blocks that start on address-unit boundaries (the hypothesis that excludes F45) and end within
+   64 Ki address units (excludes F24): the text parses, every record length / checksum / type and the EOF record
+   verified, to the records of the layout; a byte address is defined by the file iff it lies in a block
+   (nothing outside a block is defined); and every defined byte is the output's own byte at that address
+   (byte_at = the 8 bits from bit 8k on, zero past the end).  All block lists, all lengths, units 8/16/32. *)
+Theorem C11_intelhex_blocks : forall unit bits blocks,
+  unit = 8 \/ unit = 16 \/ unit = 32 -> blocks_ok unit blocks ->
+  let recs := map (fun r => (fst r / unit, snd r)) (ihex_records bits blocks) in
+  decode_intelhex_records (format_intelhex_blocks unit bits blocks) = Some recs
+  /\ (forall k b, image unit recs k = Some b -> in_block_bytes blocks k /\ b = byte_at bits (8 * N.to_nat k))
+  /\ (forall k, in_block_bytes blocks k -> image unit recs k <> None).
+Proof. exact intelhex_blocks_roundtrip. Qed.
+
+(* The same from the span list, on the bit level: if moreover every set bit of the output lies in a span (true of
+   assembled outputs) and the blocks end inside the output, the memory image of the file (absent = 0) equals the
+   padded output byte for byte and the file defines no byte outside the output or outside a block. *)
+Theorem C11_intelhex_spans : forall unit bits spans,
+  unit = 8 \/ unit = 16 \/ unit = 32 -> blocks_ok unit (get_blocks spans) -> spans_inside bits (get_blocks spans) ->
+  (forall i, nth i bits false = true -> in_span spans (N.of_nat i)) ->
   exists recs, decode_intelhex_records (format_intelhex unit bits spans) = Some recs
     /\ (forall k, k < byte_num bits ->
           val_bits 8 (match image unit recs k with Some b => b | None => 0 end)
           = firstn 8 (skipn (8 * N.to_nat k) (pad 8 bits)))
-    /\ (forall k b, image unit recs k = Some b -> k < byte_num bits).
+    /\ (forall k b, image unit recs k = Some b -> k < byte_num bits /\ in_block_bytes (get_blocks spans) k).
+Proof. exact intelhex_spans_roundtrip. Qed.
 
-(* the two dump formats: the address column of every line, the number of byte groups per line, the digits and
-   the position of the first absent ('.') cell are all checked by the decoder (flag false = the ASCII gutter
-   is not examined) *)
-Theorem C11_bindump_partial : forall bits, decode_bindump false (format_bindump bits) = Some (pad 1 bits).
+(* ---- the two dump formats, the whole text ----
+   strict = true: besides the address column of every line (= line index * bytes per line, hexadecimal), the
+   number of byte groups per line, the digits and the position of the first absent ('.') cell, the decoder also
+   examines the ASCII gutter (a gutter character must be '.', a blank for a white-space byte, or the byte's own
+   ASCII character; where the byte is absent it must be '.').  Both settings are proved. *)
+Theorem C11_bindump : forall strict bits, decode_bindump strict (format_bindump bits) = Some (pad 1 bits).
 Proof. exact bindump_roundtrip. Qed.
 
-Theorem C11_hexdump_partial : forall bits, decode_hexdump false (format_hexdump bits) = Some (pad 4 bits).
+Theorem C11_hexdump : forall strict bits, decode_hexdump strict (format_hexdump bits) = Some (pad 4 bits).
 Proof. exact hexdump_roundtrip. Qed.
 
-(* full statements with the gutter examined too (flag true: a gutter character must be '.', a blank for a
-   white-space byte, or the byte's own ASCII character).  NOT PROVED; the strict decoders are the ones run on
-   the implementation's text for every generated vector. *)
-Definition C11_bindump_statement : Prop := forall bits, decode_bindump true (format_bindump bits) = Some (pad 1 bits).
-Definition C11_hexdump_statement : Prop := forall bits, decode_hexdump true (format_hexdump bits) = Some (pad 4 bits).
+(* column by column: the text is exactly, per line i,  " " hex(i * bytes_per_line) zero-padded to the width of the
+   largest address, " | ", the digit groups, "| ", the gutter, " |", newline (line_body); every group has
+   digits_per_byte in-range cells; the gutter cell of a byte is absent iff its group starts absent and
+   otherwise holds exactly the value the group's digits denote (lines_ok / grel), printed by gutter_char. *)
+Theorem C11_bindump_columns : forall bits,
+  let lines := dump_lines (N.to_nat (dump_line_end (blen bits) 8 8)) 1 8 8 0 bits in
+  let w := length (hex_lower ((dump_line_end (blen bits) 8 8 - 1) * 8)) in
+  format_bindump bits = concat (map (fun ln => line_body w 8 ln ++ [10]) lines) /\ lines_ok 1 8 8 0 lines.
+Proof. exact bindump_columns. Qed.
+
+Theorem C11_hexdump_columns : forall bits,
+  let lines := dump_lines (N.to_nat (dump_line_end (blen bits) 8 16)) 4 8 16 0 bits in
+  let w := length (hex_lower ((dump_line_end (blen bits) 8 16 - 1) * 16)) in
+  format_hexdump bits = concat (map (fun ln => line_body w 16 ln ++ [10]) lines) /\ lines_ok 4 2 16 0 lines.
+Proof. exact hexdump_columns. Qed.
 
 (* the empty output, every format, by evaluation (F4: no crash, well-formed and empty) *)
 Theorem C11_empty :
